@@ -58,7 +58,25 @@ TECHNIQUE = ("Lean 4 proof (Fubini/distributivity over nested finite sums, induc
              "lemma) + verified certificate checker run on the real contraction programs + differential value "
              "correspondence on integer arrays")
 LEAN_MODULES = ["CotengraVerif.Props.C01"]
-THEOREMS = []
+THEOREMS = [
+    "Cotengra.C01.admissible_sound",
+    "Cotengra.C01.admissibleCore_sound",
+    "Cotengra.C01.model_extract_admissible",
+    "Cotengra.C01.model_extract_admissible_inds",
+    "Cotengra.C01.model_extract_admissible_sorted",
+    "Cotengra.C01.model_contract_correct",
+    "Cotengra.C01.run_order_irrelevant",
+    "Cotengra.C01.run_order_irrelevant_model",
+    "Cotengra.C01.IsEinsum.at_pos",
+    "Cotengra.childrenFirst_internal",
+    "Cotengra.inds_ok",
+    "Cotengra.sortInds_ok",
+    "Cotengra.sumOver_fubini",
+    "Cotengra.sumOver_perm",
+    "Cotengra.einsum2_sem",
+    "Cotengra.binary_step",
+    "Cotengra.Net.legs_get_eq_spec",
+]
 TRUSTED = [
     "Lean 4.33 kernel; axioms ⊆ {propext, Classical.choice, Quot.sound}",
     "Model/Tensor.lean: functional-array definitions of einsum (1 and 2 operands), tensordot and transpose "
@@ -170,11 +188,23 @@ def canon_program(prog):
 
 
 def build_tree(case):
+    """The real tree of the case: from_path, then slicing (part of the tree), then the optional
+    sort_contraction_indices(priority).  No other history (histories are C02's subject)."""
     net = gen.Net.from_json(case["net"])
     tree = gen.real_tree(ctg, net, case["tree"])
+    for ix in case.get("slice") or []:
+        tree.remove_ind_(gen.sym(ix))
     if case.get("sort"):
         tree.sort_contraction_indices(priority=case["sort"])
     return net, tree
+
+
+def restricted(net, removed):
+    """The network the core contraction of a sliced tree computes."""
+    rm = set(removed)
+    return gen.Net([[ix for ix in t if ix not in rm] for t in net.inputs],
+                   [ix for ix in net.output if ix not in rm],
+                   {k: v for k, v in net.sizes.items()})
 
 
 def int_arrays(net, seed):
@@ -213,24 +243,17 @@ def gen_case(rng, tier, small=False):
     net = gen.rand_net(rng, nmin=2, nmax=nmax, max_inds=9, dims=(1, 2, 3), max_total=3000,
                        p_output=rng.choice([None, None, 0.6]))
     tree = gen.rand_tree(rng, len(net.inputs))
+    inds = net.indices()
+    k = rng.choice([0, 0, 0, 1, 2])
+    sl = sorted(rng.sample(inds, min(k, len(inds))))
     return {"net": net.json(), "tree": tree, "order": rng.choice(ORDERS),
             "prefer_einsum": rng.random() < 0.35, "sort": rng.choice(SORTS),
-            "impl": rng.choice(IMPLS), "seed": rng.randrange(1 << 30)}
+            "impl": rng.choice(IMPLS), "slice": sl, "seed": rng.randrange(1 << 30)}
 
 
 def guards_ok(net):
     used = {ix for t in net.inputs for ix in t}
     return len(net.inputs) >= 2 and len(set(net.output)) == len(net.output) and all(ix in used for ix in net.output)
-
-
-def observe_program(case):
-    """Real program (serialised) + the real tree's orientation + traversal positions."""
-    net, tree = build_tree(case)
-    order = make_order(case["order"], case["seed"])
-    contractions = cmod.extract_contractions(tree, order, case["prefer_einsum"])
-    prog = serialise_program(contractions)
-    bt = gen.bt_of_real(tree)
-    return net, tree, prog, bt
 
 
 def internal_index(bt):
@@ -264,7 +287,15 @@ def value_check(case, net, tree):
 
 
 def check_case(ctx, drv, case, eval_model=True):
-    net, tree, prog, bt = observe_program(case)
+    removed = list(case.get("slice") or [])
+    try:
+        net, tree = build_tree(case)
+    except Exception as e:
+        ctx.case(case, nontrivial=False)
+        ctx.violation({"site": "ContractionTree.from_path/remove_ind/sort_contraction_indices", "kind": "raises"},
+                      {"case": case, "observed": repr(e)[:200]},
+                      "the tree of a valid contraction cannot be built: " + repr(e)[:160])
+        return False
     feats = net.features()
     n = len(net.inputs)
     for f in feats:
@@ -274,25 +305,37 @@ def check_case(ctx, drv, case, eval_model=True):
     ctx.count("prefer_einsum:%s" % case["prefer_einsum"])
     ctx.count("sort:%s" % case["sort"])
     ctx.count("impl:" + case["impl"])
+    ctx.count("sliced_inds:%d" % len(removed))
+
+    # ---- implementation-side oracle: value and axis order against the dense reference -------
+    bad, arrays, (oshape, res) = value_check(case, net, tree)
+    if bad is not None:
+        ctx.case(case, nontrivial=n >= 3)
+        ctx.violation({"site": "ContractionTree.contract", "kind": "value-or-axis-order"},
+                      {"case": case, "observed": bad},
+                      "tree.contract differs from the dense einsum reference: " + bad)
+        return False
+
+    # ---- the real program ------------------------------------------------------------------
+    try:
+        order = make_order(case["order"], case["seed"])
+        prog = serialise_program(cmod.extract_contractions(tree, order, case["prefer_einsum"]))
+        bt = gen.bt_of_real(tree)
+    except Exception as e:
+        ctx.case(case, nontrivial=n >= 3)
+        ctx.corr_broken("the real program cannot be extracted / serialised: %r" % (e,), case)
+        return True
     ctx.count("steps:tensordot", sum(1 for s in prog["steps"] if s["tdot"]))
     ctx.count("steps:tensordot+perm", sum(1 for s in prog["steps"] if s["tdot"] and s["perm"]))
     ctx.count("steps:einsum", sum(1 for s in prog["steps"] if not s["tdot"]))
     ctx.count("preprocessing_steps", len(prog["pre"]))
     has_perm = any(s["tdot"] and s["perm"] for s in prog["steps"])
     nontrivial = n >= 3 and (bool(set(feats) & {"hyper", "repeated", "dangling", "scalar", "disconnected",
-                                                 "size1"}) or has_perm)
+                                                 "size1"}) or has_perm or bool(removed))
     ctx.case(case, nontrivial=nontrivial)
 
-    # ---- implementation-side oracle: value and axis order against the dense reference -------
-    bad, arrays, (oshape, res) = value_check(case, net, tree)
-    if bad is not None:
-        ctx.violation({"site": "ContractionTree.contract", "kind": "value-or-axis-order"},
-                      {"case": case, "observed": bad},
-                      "tree.contract differs from the dense einsum reference: " + bad)
-        return False
-
     # ---- (A) the real program is certified by the Lean checker ----------------------------
-    resp = drv.call("c01.admissible", net=case["net"], removed=[], tree=bt, program=prog)
+    resp = drv.call("c01.admissible", net=case["net"], removed=removed, tree=bt, program=prog)
     ctx.traces += 1
     if "error" in resp:
         ctx.corr_broken("driver error in c01.admissible: " + resp["error"], case)
@@ -309,7 +352,7 @@ def check_case(ctx, drv, case, eval_model=True):
     kw = {}
     if case["sort"]:
         kw["sort"] = {"proc": sort_proc(tree, case["sort"], idx)}
-    mresp = drv.call("c01.extract", net=case["net"], removed=[], tree=bt, order=order_pos,
+    mresp = drv.call("c01.extract", net=case["net"], removed=removed, tree=bt, order=order_pos,
                      prefer_einsum=case["prefer_einsum"], **kw)
     if "error" in mresp:
         ctx.corr_broken("driver error in c01.extract: " + mresp["error"], case)
@@ -322,10 +365,15 @@ def check_case(ctx, drv, case, eval_model=True):
     ctx.count("model_program_identical" if same else "model_program_differs(allowed)")
 
     if eval_model:
-        jarrs = [{"shape": list(a.shape), "data": [int(v) for v in a.reshape(-1)]} for a in arrays]
-        ev = drv.call("c01.eval", net=case["net"], removed=[], program=prog, arrays=jarrs)
+        # the core contraction of slice 0 (all arrays when nothing is sliced)
+        core_arrays = tree.slice_arrays(arrays, 0) if removed else arrays
+        rnet = restricted(net, removed)
+        roshape, rres = refimpl.dense_einsum(rnet.inputs, rnet.output, rnet.sizes, core_arrays)
+        jarrs = [{"shape": list(a.shape), "data": [int(v) for v in np.asarray(a).reshape(-1)]}
+                 for a in core_arrays]
+        ev = drv.call("c01.eval", net=case["net"], removed=removed, program=prog, arrays=jarrs)
         ctx.traces += 1
-        want = {"shape": list(oshape), "data": flat_of_ref(oshape, res)}
+        want = {"shape": list(roshape), "data": flat_of_ref(roshape, rres)}
         if "error" in ev:
             ctx.corr_broken("driver error in c01.eval: " + ev["error"], case)
         elif ev["run"] != want:
@@ -373,7 +421,7 @@ def all_trees_cases(ctx, drv, rng, nnets):
             o, pe, srt, impl = combos[k % len(combos)]
             k += 1
             case = {"net": net.json(), "tree": t, "order": o, "prefer_einsum": pe, "sort": srt,
-                    "impl": impl, "seed": rng.randrange(1 << 30)}
+                    "impl": impl, "slice": [], "seed": rng.randrange(1 << 30)}
             ctx.count("all_trees_cases")
             check_case(ctx, drv, case, eval_model=(k % 4 == 0))
 
@@ -390,7 +438,7 @@ def run(ctx, drv):
         if not replay(ctx, obj):
             ctx.violation({"site": "corpus", "file": os.path.basename(f)}, obj,
                           "corpus case fails again: " + os.path.basename(f))
-    ncases = 400 if ctx.tier == "quick" else 6000
+    ncases = 2500 if ctx.tier == "quick" else 80000
     skipped = 0
     done = 0
     while done < ncases:
@@ -404,7 +452,7 @@ def run(ctx, drv):
         check_case(ctx, drv, case)
     ctx.count("skipped_by_guard", skipped)
     if ctx.tier == "thorough":
-        all_trees_cases(ctx, drv, ctx.rng, 60)
+        all_trees_cases(ctx, drv, ctx.rng, 300)
 
 
 def failing(case):
@@ -417,7 +465,8 @@ def failing(case):
 def shrink(case):
     """Greedy shrinking while the implementation still fails: simpler options, lower dims."""
     cur = dict(case)
-    for key, val in (("sort", None), ("order", "dfs"), ("impl", "auto"), ("prefer_einsum", False)):
+    for key, val in (("slice", []), ("sort", None), ("order", "dfs"), ("impl", "auto"),
+                     ("prefer_einsum", False)):
         trial = dict(cur)
         trial[key] = val
         try:
@@ -467,5 +516,15 @@ def search(ctx):
 
 
 def replay(ctx, obj):
-    case = obj["case"]
-    return failing(case) is None
+    """Re-execute a replay on /repo with the implementation-side oracle only (no model):
+    True = the property holds on this input."""
+    case = obj.get("case")
+    if case is None:
+        # a `no-failing-input-found` record names an obligation, not an input
+        print("replay: this record names an undischarged obligation; there is no input to re-execute")
+        return True
+    try:
+        return failing(case) is None
+    except Exception as e:  # the real code cannot even build the tree / program
+        print("replay: raises", repr(e)[:200])
+        return False
